@@ -1,15 +1,14 @@
 (* C20 - hex codec; the ASCON_NO_STL byte_array.
    Only statements, closed by [exact]; proofs are in Proofs/HexP.v and
-   Proofs/ByteArrayP.v.  THIS VERSION DESCRIBES /repo WITH THE THREE EARLIER
-   C20 PATCHES APPLIED AND THE TWO HELD-REFERENCE DEFECTS STILL PRESENT:
-   Model/C20Config.v has fix_hex_helper = fix_ba_cmp = fix_ba_resize = true,
-   fix_ba_index = fix_ba_leak = false.  The statements about element
-   references and data() pointers held across other operations are REFUTED for
-   the selected model (..._refuted) and PROVED for the models of the code after
-   fixes/C20-subscript-detach.patch and fixes/C20-bytearray-unshare-leaked.patch
-   (..._fixed).  When /repo gets the first patch: fix_ba_index := true and
-   replace this file by Props/Properties_C20.v.fixed-index; when it has both:
-   fix_ba_leak := true as well and Props/Properties_C20.v.fixed. *)
+   Proofs/ByteArrayP.v.  THIS VERSION DESCRIBES /repo AFTER
+   fixes/C20-subscript-detach.patch BUT WITHOUT
+   fixes/C20-bytearray-unshare-leaked.patch: Model/C20Config.v has
+   fix_ba_index = true, fix_ba_leak = false (the three older flags true).
+   Element references held across operator[] / pop_back are proved for the
+   selected model; a data() pointer held across a copy of the array is
+   REFUTED for it (..._refuted) and proved for the model of the code after
+   the second patch (..._fixed).  When /repo has both patches:
+   fix_ba_leak := true and Props/Properties_C20.v.fixed. *)
 From AsconV Require Import Spec.Hex Model.Hexm Model.ByteArraym Proofs.HexP Proofs.ByteArrayP.
 From AsconV Require Sym.MiniC Gen.HexAst Obl.HexOblDefs Obl.HexObl.
 From Coq Require Import ZArith.
@@ -127,7 +126,7 @@ Print Assumptions C20_cpp_helper.
 
 (* ================== ASCON_NO_STL byte_array ============================== *)
 (* what does hold of the code /repo has now: every operation that is safe in the selected
-   configuration (op_safe cfg_selected: everything but the eight operations in which an element reference or data() pointer is held across another operation on the same object, op_held) has the
+   configuration (op_safe cfg_selected: everything but ODataHeldCopy, ODataHeldAssign and OCDataHeld, the operations that hold a data() pointer while the array is copied or written) has the
    std::vector effect on every variable, returns the std::vector result and keeps the invariant *)
 Theorem C20_ba_refines_partial : forall st o, Inv st -> op_pre (abs st) o = true -> op_safe cfg_selected o = true ->
   abs (fst (ba_step st o)) = fst (vec_step (abs st) o) /\
@@ -144,23 +143,11 @@ Theorem C20_ba_refines_partial_run : forall n ops,
 Proof. exact (run_refines_safe cfg_selected). Qed.
 Print Assumptions C20_ba_refines_partial_run.
 
-(* the selected configuration makes exactly the held-reference operations unsafe *)
-Theorem C20_ba_partial_scope : forall o, op_safe cfg_selected o = negb (op_held o).
-Proof. intros o. destruct o; try reflexivity. match goal with |- op_safe _ (OCmp ?x _ _) = _ => destruct x; reflexivity end. Qed.
-Print Assumptions C20_ba_partial_scope.
-
-(* REFUTED for the code as pinned (the selected model): operator[] (both overloads) and pop_back call
-   detach() unconditionally, so the second subscript deletes the block the first reference points into.
-   On each of the five sequences
-     a(2,7); unsigned char &r = a[0], &s = a[1]; r = 1; s = 2;        a(2,7); a[1] = 9; std::swap(a[0], a[1]);
-     a(2,7); unsigned char &r = a[0]; a[1]; return r;  (non-const and const)    a(2,7); unsigned char &r = a[0]; a.pop_back(); return r;
-   std::vector defines the behaviour (ops_pre) and the model uses a dangling reference (RUAF) *)
-Theorem C20_ba_held_refuted_uaf :
-  Forall (fun ops => ops_pre (abs (init 1)) ops = true /\ last_result (snd (run cfg_selected (init 1) ops)) = RUAF /\
-                     last_result (snd (vec_run (abs (init 1)) ops)) <> RUAF)
-         [witness_set2; witness_swap; witness_get_held; witness_get_held_c; witness_held_pop].
-Proof. exact (index_pinned_refuted cfg_selected eq_refl). Qed.
-Print Assumptions C20_ba_held_refuted_uaf.
+(* element references held across operator[] / pop_back: exactly the std::vector result, never a dangling reference *)
+Theorem C20_ba_held_exact : forall st o, Inv st -> op_pre (abs st) o = true -> op_held o = true -> op_safe cfg_selected o = true ->
+  snd (ba_step st o) = snd (vec_step (abs st) o) /\ snd (ba_step st o) <> RUAF.
+Proof. intros st o HI Hp Hh Hs. exact (held_exact cfg_selected st o HI Hp Hs Hh). Qed.
+Print Assumptions C20_ba_held_exact.
 
 (* REFUTED for the selected model: a(2,7); unsigned char *q = a.data(); byte_array b(a) [or: b = a]; q[0] = 9;
    the copy shares the block q points into, so b becomes 9,7 where a std::vector copy stays 7,7 *)
@@ -208,15 +195,6 @@ Theorem C20_ba_held_exact_fixed : forall st o, Inv st -> op_pre (abs st) o = tru
   snd (step cfg_fixed st o) = snd (vec_step (abs st) o) /\ snd (step cfg_fixed st o) <> RUAF.
 Proof. intros st o HI Hp Hh. exact (held_exact cfg_fixed st o HI Hp (safe_fixed o) Hh). Qed.
 Print Assumptions C20_ba_held_exact_fixed.
-
-(* for the code after fixes/C20-subscript-detach.patch alone (cfg_fixed_index): everything but the three
-   operations that hold a data() pointer while the array is copied or written (ODataHeldCopy, ODataHeldAssign, OCDataHeld) *)
-Theorem C20_ba_refines_fixed_index : forall st o, Inv st -> op_pre (abs st) o = true -> op_safe cfg_fixed_index o = true ->
-  abs (fst (step cfg_fixed_index st o)) = fst (vec_step (abs st) o) /\
-  res_agree (snd (step cfg_fixed_index st o)) (snd (vec_step (abs st) o)) /\
-  Inv (fst (step cfg_fixed_index st o)).
-Proof. exact (step_refines cfg_fixed_index). Qed.
-Print Assumptions C20_ba_refines_fixed_index.
 
 (* capacity() is unspecified by the standard beyond these two facts, which hold in every configuration *)
 Theorem C20_ba_capacity : forall st v, Inv st ->
